@@ -422,7 +422,7 @@ def run(chk):
 				for opname in CMP_OPS:
 					others = [rng.choice(ARITH_VALUES[kind]), [rng.choice(ARITH_VALUES[kind]) for _ in range(n)]]
 					if kind == "date":
-						others += ["2020-06-01", V.DT0, [x.isoformat() for x in base]]
+						others += ["2020-06-01", V.DT0, [x.isoformat() for x in base], [V.datetime(x.year, x.month, x.day, 6, 0) for x in base]]
 					for other in others:
 						chk.case("compare_meta", {"a": base, "mask_bits": list(mask), "other": other, "opname": opname, "kind": kind}, "compare-meta")
 			# reductions
